@@ -171,6 +171,10 @@ func (x *Exec) callFunc(call *ast.CallExpr, obj *types.Func, recv *Val, args []*
 		}
 	}
 	key := KeyOfFunc(obj)
+	if key == "iter.Pull2" {
+		x.pull2(call, args, st, fr, k)
+		return
+	}
 	c := x.W.CS.ByKey[key]
 	fi := x.W.ByObj[obj.Origin()]
 	if sf, ok := x.W.Specs[key]; ok && fi != nil && fi.IsSpec {
@@ -624,7 +628,7 @@ func (x *Exec) callContract(call *ast.CallExpr, c *Contract, obj *types.Func, fi
 		}
 	}
 	for pn, proto := range c.ParamProto {
-		if v, ok := names[pn]; ok && v != nil && v.Proto != proto {
+		if v, ok := names[pn]; ok && v != nil && !x.W.protoCompatible(v.Proto, x.W.protoOf(proto)) {
 			pos := x.W.pos(call.Pos())
 			x.emit(st, oblTemplate{kind: "proto", label: pn, pos: pos, clause: "argument " + pn + " obeys protocol " + proto,
 				name: x.Fn.Key + "/call#" + c.Key + "/proto#" + pn}, nil, False)
@@ -674,6 +678,9 @@ func (x *Exec) callContract(call *ast.CallExpr, c *Contract, obj *types.Func, fi
 		rv := x.freshVal(st, "ret."+obj.Name(), rt)
 		if rv.T != nil && rv.T.Sort == SRef {
 			x.assume(st, Or(Eq(rv.T, Null), Select(st.alloc(), rv.T)))
+		}
+		if i == 0 && c.Yields != "" {
+			rv.Proto = x.W.protoOf(c.Yields)
 		}
 		rvals = append(rvals, rv)
 		post[rn[i]] = rv
